@@ -551,6 +551,6 @@ func c02Gen(rt *rapid.T) c02Case {
 }
 
 func TestVerif_C02_rpc_unary(t *testing.T) {
-	kit.Run(t, "C02", "rpc-unary", kit.Opts{Quick: 4000, Thorough: 160000}, c02Gen,
+	kit.Run(t, "C02", "rpc-unary", kit.Opts{Quick: 4000, Thorough: 120000}, c02Gen,
 		func(c c02Case) kit.Verdict { return c02Run(t, c) })
 }
